@@ -24,51 +24,51 @@ def _fam(quick, thorough):
 
 PROPS = {
     'C01': dict(title='Query conforms to the path semantics',
-                families=_fam([('pg', 0), ('rand', 5000), ('struct', 2500), ('filter', 2500), ('sub', 2000), ('desc', 2000), ('meth', 1500), ('compose', 1500), ('ctx', 2000)],
-                              [('pg', 0), ('rand', 150000), ('struct', 60000), ('filter', 60000), ('sub', 50000), ('desc', 50000), ('meth', 20000), ('compose', 30000), ('kleene', 20000)]),
+                families=_fam([('pg', 0), ('rand', 5000), ('struct', 2500), ('filter', 2500), ('sub', 2000), ('desc', 2000), ('meth', 1500), ('compose', 1500), ('ctx', 2000), ('walk', 4000), ('share', 1500), ('cmp', 3000)],
+                              [('pg', 0), ('rand', 150000), ('struct', 60000), ('filter', 60000), ('sub', 50000), ('desc', 50000), ('meth', 20000), ('compose', 30000), ('kleene', 20000), ('walk', 80000), ('share', 30000)]),
                 spec=lambda l: l['entry'] == 'query', tags=['C01']),
     'C05': dict(title='execution is total, pure and classified',
-                families=_fam([('rand', 6000), ('meth', 2500), ('cmp', 3000), ('math', 2500)],
-                              [('rand', 200000), ('meth', 20000), ('cmp', 40000), ('math', 30000), ('struct', 30000)]),
+                families=_fam([('rand', 6000), ('meth', 2500), ('cmp', 3000), ('math', 2500), ('walk', 3000)],
+                              [('rand', 200000), ('meth', 20000), ('cmp', 40000), ('math', 30000), ('struct', 30000), ('walk', 60000), ('share', 10000)]),
                 spec=lambda l: False, tags=['C05']),
     'C06': dict(title='the five entry points tell one story',
-                families=_fam([('pg', 0), ('rand', 6000), ('struct', 3000), ('filter', 2500), ('kleene', 2500)],
-                              [('rand', 150000), ('struct', 60000), ('filter', 60000), ('kleene', 40000), ('compose', 20000)]),
+                families=_fam([('pg', 0), ('rand', 6000), ('struct', 3000), ('filter', 2500), ('kleene', 2500), ('walk', 3000)],
+                              [('rand', 150000), ('struct', 60000), ('filter', 60000), ('kleene', 40000), ('compose', 20000), ('walk', 60000)]),
                 spec=lambda l: l['entry'] in ('first', 'exists', 'match', 'eom'), tags=['C06']),
     'C07': dict(title='lax absorbs structural mismatches, strict reports each',
-                families=_fam([('struct', 12000)], [('struct', 250000), ('sub', 30000), ('desc', 30000)]),
+                families=_fam([('struct', 12000), ('sub', 3000), ('walk', 3000), ('fsub', 800)], [('struct', 250000), ('sub', 30000), ('desc', 30000), ('walk', 60000), ('fsub', 10000)]),
                 spec=lambda l: l['entry'] == 'query', tags=['C07']),
     'C08': dict(title='WithSilent suppresses exactly the suppressible errors',
-                families=_fam([('pg', 0), ('rand', 6000), ('struct', 3000), ('filter', 2500), ('meth', 2000), ('ctx', 3000), ('cancel', 25)],
-                              [('rand', 150000), ('struct', 60000), ('filter', 60000), ('meth', 20000), ('kleene', 30000), ('cancel', 300)]),
+                families=_fam([('pg', 0), ('rand', 6000), ('struct', 3000), ('filter', 2500), ('meth', 2000), ('ctx', 3000), ('cancel', 25), ('walk', 3000), ('kv', 1500), ('math', 1500)],
+                              [('rand', 150000), ('struct', 60000), ('filter', 60000), ('meth', 20000), ('kleene', 30000), ('cancel', 300), ('walk', 60000), ('kv', 20000)]),
                 # cancellation is the one error WithSilent must never suppress: the C20 relations on silent runs decide C08 too
                 spec=lambda l: True, tags=['C08', 'C20']),
     'C09': dict(title='steps compose; context is left intact',
-                families=_fam([('ctx', 6000), ('compose', 4000), ('group9', 2500)], [('ctx', 0), ('compose', 60000), ('group9', 40000)]),
+                families=_fam([('ctx', 6000), ('compose', 4000), ('group9', 2500), ('walk', 3000)], [('ctx', 0), ('compose', 60000), ('group9', 40000), ('walk', 60000)]),
                 spec=lambda l: l['entry'] == 'query', tags=['C09']),
     'C10': dict(title='a filter keeps exactly the items whose condition is true',
-                families=_fam([('filter', 8000), ('group10', 2500), ('ctx', 3000)], [('filter', 200000), ('group10', 40000), ('ctx', 0)]),
+                families=_fam([('filter', 8000), ('group10', 2500), ('ctx', 3000), ('walk', 4000)], [('filter', 200000), ('group10', 40000), ('ctx', 0), ('walk', 80000)]),
                 spec=lambda l: l['entry'] == 'query', tags=['C10']),
     'C11': dict(title='Kleene connectives',
-                families=_fam([('kleene', 9000), ('group11', 2000), ('ctx', 3000)], [('kleene', 200000), ('group11', 30000), ('ctx', 0)]),
+                families=_fam([('kleene', 9000), ('group11', 2000), ('ctx', 3000), ('walk', 2000)], [('kleene', 200000), ('group11', 30000), ('ctx', 0), ('walk', 40000)]),
                 spec=lambda l: l['entry'] in ('query', 'match'), tags=['C11']),
     'C12': dict(title='comparisons impose one consistent order',
                 families=_fam([('cmp', 40000)], [('cmp', 0)]),
                 spec=lambda l: l['entry'] == 'query', tags=['C12']),
     'C13': dict(title='arithmetic is exact or fails loudly',
-                families=_fam([('math', 9000)], [('math', 120000)]),
+                families=_fam([('math', 9000), ('walk', 2000)], [('math', 120000), ('walk', 40000)]),
                 spec=lambda l: True, tags=['C13']),
     'C14': dict(title='array subscripts',
-                families=_fam([('sub', 12000)], [('sub', 0)]),
+                families=_fam([('sub', 12000), ('walk', 4000), ('fsub', 800)], [('sub', 0), ('walk', 80000), ('fsub', 10000)]),
                 spec=lambda l: l['entry'] == 'query', tags=['C14']),
     'C15': dict(title='wildcards and recursive descent',
-                families=_fam([('desc', 12000)], [('desc', 0)]),
+                families=_fam([('desc', 12000), ('share', 3000), ('walk', 2000)], [('desc', 0), ('share', 60000), ('walk', 40000)]),
                 spec=lambda l: l['entry'] == 'query', tags=['C15']),
     'C16': dict(title='item methods',
-                families=_fam([('meth', 9000), ('kv', 3000)], [('meth', 0), ('kv', 60000)]),
+                families=_fam([('meth', 9000), ('kv', 3000), ('walk', 3000)], [('meth', 0), ('kv', 60000), ('walk', 60000)]),
                 spec=lambda l: l['entry'] == 'query', tags=['C16']),
     'C17': dict(title='datetime methods (executor-model leg)',
-                families=_fam([('dt', 6000)], [('dt', 0)]),
+                families=_fam([('dt', 6000), ('walk', 2000)], [('dt', 0), ('walk', 30000)]),
                 spec=lambda l: True, tags=['C17']),
     'C18': dict(title='datetime values (executor-model leg)',
                 families=_fam([('dt', 3000)], [('dt', 40000)]),
@@ -290,7 +290,13 @@ def proof_leg(prop, log):
     return res
 
 
-def build_harness(log):
+HARNESS_BIN = [os.path.join(BUILD, 'sjharness')]
+
+
+def build_harness(log, prop=None):
+    """build the Go harness against /repo's working tree; one binary per property so that checks may run in parallel"""
+    if prop:
+        HARNESS_BIN[0] = os.path.join(BUILD, 'sjharness_' + prop)
     h = os.path.join(ROOT, 'harness')
     if os.path.exists('/repo/go.sum'):
         try:
@@ -299,7 +305,7 @@ def build_harness(log):
         except OSError:
             pass
     t0 = time.time()
-    r = sh(['go', 'build', '-tags', 'verif', '-o', os.path.join(BUILD, 'sjharness'), '.'], cwd=h)
+    r = sh(['go', 'build', '-tags', 'verif', '-o', HARNESS_BIN[0], '.'], cwd=h)
     log.append('go build harness: rc=%d %.1fs' % (r.returncode, time.time() - t0))
     if r.returncode != 0:
         return (r.stdout + r.stderr)[-800:]
@@ -313,7 +319,7 @@ def run_family(prop, fam, n, seed, log, tag=''):
     base = os.path.join(BUILD, 'run', '%s_%s%s' % (prop, safe, tag))
     sexp, rep = base + '.sexp', base + '.report'
     t0 = time.time()
-    r = sh([os.path.join(BUILD, 'sjharness'), 'gen', '-family', fam, '-n', str(n), '-seed', str(seed), '-out', sexp])
+    r = sh([HARNESS_BIN[0], 'gen', '-family', fam, '-n', str(n), '-seed', str(seed), '-out', sexp])
     if r.returncode != 0:
         raise RuntimeError('harness failed on family %s: %s' % (fam, (r.stdout + r.stderr)[-500:]))
     t1 = time.time()
@@ -399,7 +405,18 @@ def ensure_setup(log):
 
 
 def rebuild_driver_if_stale(log):
-    """the extracted model must correspond to the current Coq sources"""
+    """the extracted model must correspond to the current Coq sources (one rebuild at a time)"""
+    import fcntl
+    os.makedirs(BUILD, exist_ok=True)
+    with open(os.path.join(BUILD, '.lock'), 'a') as lk:
+        fcntl.flock(lk, fcntl.LOCK_EX)
+        try:
+            return _rebuild_driver_if_stale(log)
+        finally:
+            fcntl.flock(lk, fcntl.LOCK_UN)
+
+
+def _rebuild_driver_if_stale(log):
     ml = os.path.join(BUILD, 'ml', 'model.ml')
     newest = 0
     for d in ('model', 'spec', 'lib', 'extract', 'gen'):
@@ -418,7 +435,7 @@ def rebuild_driver_if_stale(log):
     for p in glob.glob(os.path.join(ROOT, 'driver', '*.ml')):
         with open(p) as a, open(os.path.join(mld, os.path.basename(p)), 'w') as b:
             b.write(a.read())
-    r = sh('ocamlfind ocamlopt -O2 -w -a model.mli model.ml sexp.ml conv.ml main.ml -o %s' % os.path.join(BUILD, 'sjdriver'), cwd=mld)
+    r = sh('ocamlfind ocamlopt -O2 -w -a model.mli model.ml sexp.ml conv.ml main.ml -o sjdriver.new && mv -f sjdriver.new %s' % os.path.join(BUILD, 'sjdriver'), cwd=mld)
     log.append('driver rebuilt: rc=%d' % r.returncode)
     if r.returncode != 0:
         return 'driver build failed: ' + (r.stdout + r.stderr)[-600:]
@@ -443,7 +460,7 @@ def generic_check(prop, tier, seed, replay, t_start, log, extra_oracle=None):
             P['ok'] = False
             P['problems'].append(e2)
     # ---- T and S legs
-    herr = build_harness(log)
+    herr = build_harness(log, prop)
     ties, specbad, propbad, impure, stats = [], [], [], [], []
     totals = {}
     samples = []
@@ -461,8 +478,12 @@ def generic_check(prop, tier, seed, replay, t_start, log, extra_oracle=None):
             tmp = os.path.join(BUILD, 'run', 'replay_%s.jsonl' % prop)
             os.makedirs(os.path.dirname(tmp), exist_ok=True)
             with open(tmp, 'w') as f:
-                for inp in (rp.get('inputs') or [rp.get('input', {})]):
-                    f.write(json.dumps(inp) + '\n')
+                # a single case is run several times: an outcome that depends on Go's map iteration order
+                # (a defect that shows for one order of an object's members only) needs more than one try
+                ins = rp.get('inputs') or [rp.get('input', {})]
+                for rep in range(1 if len(ins) > 1 else 8):
+                    for inp in ins:
+                        f.write(json.dumps(inp) + '\n')
             fams = [('file:' + tmp, 0)]
         else:
             if os.path.exists(corpus):
@@ -705,7 +726,7 @@ def extra_exec_leg(prop, tier, seed, log):
     err = rebuild_driver_if_stale(log)
     if err:
         return [{'kind': 'BUILD', 'text': err}], [], {}, {}, None
-    herr = build_harness(log)
+    herr = build_harness(log, prop)
     if herr:
         return [{'kind': 'BUILD', 'text': herr}], [], {}, {}, None
     ties, viol, seen, totals, sexps = [], [], {}, {}, {}
